@@ -377,7 +377,7 @@ class Gen:
             used.add(v)
             arms.append((('lit', INT, v), self.block(env, depth - 1, r.randrange(1, 3), ctx + ('arm',), loopvars, in_fun)))
         if r.random() < 0.4:
-            b = self.fresh('m'); env2 = dict(env); env2[b] = (INT, False)
+            b = self.fresh('b'); env2 = dict(env); env2[b] = (INT, False)
             arms.append((('bind', b), self.block(env2, depth - 1, r.randrange(1, 3), ctx + ('arm',), loopvars, in_fun)))
         else:
             arms.append((('wild',), self.block(env, depth - 1, r.randrange(1, 2), ctx + ('arm',), loopvars, in_fun)))
